@@ -14,12 +14,13 @@ namespace Fdo.Proto.Server
 inductive Proto | di | to0 | to1 | to2
   deriving DecidableEq, Repr
 
-/-- `protocol.Of` on the client message types. -/
+/-- `protocol.Of` on the message types of the four protocols (requests and responses; a response
+type sent as a request reaches the responder, which answers with an error). -/
 def protoOf (t : Nat) : Option Proto :=
-  if t = 10 ∨ t = 12 then some .di
-  else if t = 20 ∨ t = 22 then some .to0
-  else if t = 30 ∨ t = 32 then some .to1
-  else if t = 60 ∨ t = 62 ∨ t = 64 ∨ t = 66 ∨ t = 68 ∨ t = 70 then some .to2
+  if 10 ≤ t ∧ t ≤ 13 then some .di
+  else if 20 ≤ t ∧ t ≤ 23 then some .to0
+  else if 30 ≤ t ∧ t ≤ 33 then some .to1
+  else if 60 ≤ t ∧ t ≤ 71 then some .to2
   else none
 
 /-- `isProtocolStart` in ServeHTTP. -/
